@@ -73,7 +73,8 @@ Record tx := mktx {
   t_response_headers : list header; t_res_header_repetitions : nat;
   t_response_message_len : Z; t_response_entity_len : Z; t_response_content_length : Z;
   t_response_transfer_coding : Z; t_response_content_type : option bytes;
-  t_flags : N; t_request_progress : Z; t_response_progress : Z
+  t_flags : N; t_request_progress : Z; t_response_progress : Z;
+  t_res_cep : Z                        (* response_content_encoding_processing; 0 (calloc) = HTP_COMPRESSION_UNKNOWN *)
 }.
 #[export] Instance eta_tx : Settable _ := settable! mktx
   <t_id; t_index; t_request_ignored_lines; t_request_line; t_request_method; t_request_uri; t_request_protocol;
@@ -84,14 +85,14 @@ Record tx := mktx {
    t_response_status; t_response_message; t_response_protocol_number; t_response_status_number;
    t_response_status_expected_number; t_seen_100continue; t_response_headers; t_res_header_repetitions;
    t_response_message_len; t_response_entity_len; t_response_content_length; t_response_transfer_coding;
-   t_response_content_type; t_flags; t_request_progress; t_response_progress>.
+   t_response_content_type; t_flags; t_request_progress; t_response_progress; t_res_cep>.
 
 (* htp_tx_create *)
 Definition tx_new (id idx : nat) : tx :=
   mktx id idx 0 None None None None c_HTP_M_UNKNOWN c_HTP_PROTOCOL_UNKNOWN false puri_empty None
        0 0 [] c_HTP_CODING_UNKNOWN (-1) None None 0 0 0 0
        0 None None None None c_HTP_PROTOCOL_UNKNOWN c_HTP_STATUS_UNKNOWN 0 0 [] 0 0 0 (-1) c_HTP_CODING_UNKNOWN None
-       0%N c_HTP_REQUEST_NOT_STARTED c_HTP_RESPONSE_NOT_STARTED.
+       0%N c_HTP_REQUEST_NOT_STARTED c_HTP_RESPONSE_NOT_STARTED 0.
 
 (* payload of a data event: None = NULL data pointer; TRANSACTION_COMPLETE carries a snapshot of the tx *)
 Record event := mkev { ev_hook : nat; ev_tx : nat; ev_data : option bytes; ev_last : bool; ev_snapshot : option tx }.
